@@ -139,6 +139,10 @@ impl Monitor for C07Mon {
         );
         // (stay id, state) of the last scheduling per machine
         let mut sched: Vec<Option<(u64, usize)>> = vec![None; m];
+        // stay of each machine when its current outermost transition began: an action
+        // decided there may be scheduled after a CounterZero round trip re-entered the
+        // state with a fresh limit (the code judges limits before the counter update)
+        let mut outer: Vec<Option<Stay>> = vec![None; m];
         let log = &out.log;
         let mut i = 0;
         // has the completion's own transition been evaluated yet?
@@ -208,6 +212,10 @@ impl Monitor for C07Mon {
             let Some(r) = log.get(i) else { break };
             match r {
                 Rec::Deliver { mi, event } => {
+                    if *mi < m && *event != Event::CounterZero {
+                        // the stay in which this (outermost) transition is evaluated
+                        outer[*mi] = Some(self.st[*mi].clone());
+                    }
                     if Some(*mi) == target
                         && *event == cev
                         && completion_pending.is_none()
@@ -247,7 +255,12 @@ impl Monitor for C07Mon {
                     if *mi < m && *some {
                         let s = &self.st[*mi];
                         let lim = action_has_limit(&case.machines[*mi].states[*state].action);
-                        if lim && *state == s.state && s.limited && s.done >= s.l {
+                        let forbidden_now = lim && *state == s.state && s.limited && s.done >= s.l;
+                        let allowed_by_outer = outer[*mi].as_ref().map_or(false, |o| {
+                            o.id != s.id && o.state == *state && (!o.limited || o.done < o.l)
+                        });
+                        stats.probe_if("scheduled_after_round_trip_on_outer_stay", forbidden_now && allowed_by_outer);
+                        if forbidden_now && !allowed_by_outer {
                             return Some((
                                 "limited-action-after-limit".into(),
                                 format!(
@@ -257,7 +270,7 @@ impl Monitor for C07Mon {
                             ));
                         }
                         stats.probe_if("limit_zero_stay", lim && s.l == 0);
-                        sched[*mi] = Some((s.id, *state));
+                        sched[*mi] = if forbidden_now { None } else { Some((s.id, *state)) };
                     }
                 }
                 _ => {}
